@@ -24,7 +24,7 @@ history. -/
 theorem sched_relations_valid (n fbsize maxlarge : Nat) (hn : n ≤ 2 ^ 512)
     (enough : M Store → Bool) (progs : List (List (List (Relation × Option (Nat × Nat)))))
     (hgood : ∀ prog ∈ progs, ∀ u ∈ prog, ∀ op ∈ u, InputOK n op.1 op.2)
-    (sched : List (Nat × Bool)) :
+    (sched : List (Nat × Bool × Bool)) :
     let c := run addE enough (init (.ok (Store.new n fbsize maxlarge)) progs) sched
     c.store = c.log.foldl addE (.ok (Store.new n fbsize maxlarge)) ∧
     (∀ st, c.store = .ok st → Inv st ∧ st.n = n ∧
